@@ -42,6 +42,7 @@ def run(repo, report, tier):
     report.rule("C01.R8", "character classes: the IUPAC table is the standard one (N also matches non-ACGT read characters), the ACGT table maps A/C/G/T/U case-insensitively to one bit each; (wildcard_ref, wildcard_query) select the same (reference, query) tables in the aligner, the comparers and the k-mer finder",
                 "a wildcard matches a base it should not, so a reported 'match' has more real errors than reported")
     report.guard("C01.R1", "flags", r1_flags, repo, report)
+    report.guard("C01.R1", "anchored adapters", r1_anchored_full_length, repo, report)
     report.guard("C01.R2", "Aligner.locate", r2_r3_acceptance, repo, report)
     report.guard("C01.R4", "Aligner._set_reference", r4_prefix_sums, repo, report)
     report.guard("C01.R5", "DP cell", r5_cell, repo, report)
@@ -824,3 +825,51 @@ def r8_tables(repo, report):
     consts = {n.target.id if isinstance(n, ast.AnnAssign) else None: src(n.value) for n in repo.module("_align").tree.body if isinstance(n, ast.AnnAssign) and n.value is not None}
     ok = consts.get("ACGT_TABLE") == "_acgt_table()" and consts.get("IUPAC_TABLE") == "_iupac_table()" and consts.get("UPPER_TABLE") == "_upper_table()"
     report.ob("C01.R8", "table constants", ok, facts=consts, expected="ACGT_TABLE = _acgt_table(), IUPAC_TABLE = _iupac_table(), UPPER_TABLE = _upper_table()", loc="src/cutadapt/_align.pyx")
+
+
+def r1_anchored_full_length(repo, report):
+    """Anchored adapters (allows_partial_matches = False) must be found in full: their constructor forces
+    min_overlap = len(sequence) whatever the caller passes (the command line always passes -O)."""
+    n = 0
+    for cls in repo.subclasses("SingleAdapter"):
+        v = cls.class_attrs.get("allows_partial_matches")
+        if not (isinstance(v, ast.Constant) and v.value is False):
+            continue
+        n += 1
+        init = cls.methods.get("__init__")
+        if init is None:
+            report.ob("C01.R1", f"{cls.name}: full-length matches only", False, facts={}, expected="an __init__ that sets min_overlap = len(sequence)", loc=repo.loc(cls.node), why="no constructor forces the minimum overlap")
+            continue
+        ps = params(init)
+        kw = init.args.kwarg.arg if init.args.kwarg else None
+        va = init.args.vararg.arg if init.args.vararg else None
+        if kw is None or len(ps) < 2:
+            report.unrecognised("C01.R1", f"{cls.name}: full-length matches only", "constructor does not take (sequence, *args, **kwargs)", repo.loc(init))
+            continue
+
+        def hook(ex, node, env):
+            if src(node.func) == "super().__init__":
+                parts = [vkey(ex.ev(a.value if isinstance(a, ast.Starred) else a, env)) for a in node.args] + [f"**{vkey(ex.ev(k.value, env))}" if k.arg is None else f"{k.arg}={vkey(ex.ev(k.value, env))}" for k in node.keywords]
+                ex.effect("call", "super().__init__", "|".join(parts), node)
+                return Const(None)
+            return None
+
+        env = {"self": Obj("self", nonnull=True), ps[1]: Obj("SEQ", nonnull=True), kw: Obj("KW", nonnull=True)}
+        if va:
+            env[va] = Obj("ARGS", nonnull=True)
+        rows = explore(repo, strip_docstring(init.body), env, call_hook=hook, inline=False)
+        bad = []
+        for r in rows:
+            eff = [(e[0], e[1], e[2]) for e in r.effects]
+            forced = [i for i, e in enumerate(eff) if e[0] == "store" and e[1] == "KW['min_overlap']" and e[2] == "len(SEQ)"]
+            sup = [i for i, e in enumerate(eff) if e[0] == "call" and e[1] == "super().__init__"]
+            if len(sup) != 1 or "**KW" not in eff[sup[0]][2] or not eff[sup[0]][2].startswith("SEQ"):
+                bad.append(("the base constructor is not called with (sequence, ..., **kwargs)", eff))
+            elif not forced or forced[-1] > sup[0]:
+                bad.append(("min_overlap is not set to len(sequence) unconditionally before the base constructor runs", eff))
+            elif any(e[0] in ("store", "call") and e[1].startswith("KW") and "min_overlap" in (e[1] + e[2]) and i > forced[-1] for i, e in enumerate(eff)):
+                bad.append(("min_overlap is changed again after being forced", eff))
+        report.ob("C01.R1", f"{cls.name}: full-length matches only", not bad and bool(rows), facts={"paths": len(rows), "problems": [str(b)[:240] for b in bad[:2]]},
+                  expected="kwargs['min_overlap'] = len(sequence) on every path, then super().__init__(sequence, *args, **kwargs)", loc=repo.loc(init), cases=len(rows),
+                  why=str(bad[0][0]) if bad else "")
+    report.floor("C01.R1", "anchored adapter classes (allows_partial_matches = False)", n, 2)
